@@ -217,4 +217,43 @@ def main(tier):
     check_date_merge(run, fx, rs)
     check_required(run, fx, rs)
     check_clamps(run, fx, rs)
+    # R2: the caller's overflow option reaches every callee that takes one
+    rule = "R2.overflow-option-forwarded"
+    run.rule(rule, "in every function that receives an `overflow` option (ArithmeticOverflow), each callee that has an overflow "
+                   "parameter is passed a value derived from the caller's option - never a constant or None (so `reject` "
+                   "reaches the date half AND the time half, and `constrain` is never silently substituted)")
+    rs = fx["temporal_rs"]
+
+    def ov_params(g):
+        return [k for k, p in enumerate(g.params) if "ArithmeticOverflow" in p["ty"]]
+    n_inst = 0
+    for f in rs.fns:
+        if f.hir is None or f.kind not in ("Fn", "AssocFn"):
+            continue
+        mine = [f.params[k]["name"] for k in ov_params(f)]
+        if not mine:
+            continue
+        ev = H.Evaluator(fx)
+        ev.inline = lambda p: False
+        try:
+            ev.call_fn(f, [H.Sym("param", (p["name"],)) for p in f.params])
+        except (H.Panic, H.Budget):
+            continue
+        seen = {}
+        for c in ev.trace:
+            g = rs.fn(str(c.parts[0]))
+            if g is None:
+                continue
+            for k in ov_params(g):
+                if k < len(c.parts[1]):
+                    a = show(c.parts[1][k])
+                    ordn = seen[g.path] = seen.get(g.path, 0) + 1
+                    n_inst += 1
+                    key = "%s->%s#%d" % (f.path.replace("temporal_rs::builtins::core::", "").replace("temporal_rs::", ""), g.name, ordn)
+                    run.check(any("$" + m in a for m in mine), rule, key, "passes %s" % a[:60],
+                              "%s calls %s with overflow = %s, which does not depend on its own `%s` option" %
+                              (f.name, g.path.replace("temporal_rs::", ""), a[:80], mine[0]), f.loc)
+    run.analysed["overflow_forwarding_call_sites"] = n_inst
+    if n_inst < 40:
+        run.anchor_missing(rule, "instances", "only %d call sites forward an overflow option (expected >= 40)" % n_inst)
     return run.finish(EXPLANATION)
